@@ -511,6 +511,50 @@ def reader_index_is_square(ix, r):
     return True
 
 
+def _every_square_written(ctx, ix, b, sym, name, blocks, deltas=None):
+    """The initialiser writes the entry of every square that has attacks: the store sits in the loop over the squares, and
+    where a condition inside the loop decides whether it runs, the squares it skips (they keep the empty entry) must be
+    squares whose attack set is empty.  The condition is folded for the 64 values of the loop variable."""
+    ok = len(blocks) == 1 and b.in_loop(blocks[0])
+    extra = []
+    if ok:
+        for c in C.constraints_for(ix, b, sym, blocks[0]):
+            if c[3][0] == "discr" and "::next" in c[0] and c[1] == frozenset(["Some"]):
+                continue
+            if not b.in_loop(c[2]):
+                continue    # decided once, before the loop (the table is not initialised yet)
+            extra.append(c)
+    skipped = None
+    if ok and extra and deltas is not None:
+        # the loop variable: the payload of the loop's next()
+        key = None
+        for c in extra:
+            for x in walk(c[3]):
+                if isinstance(x, tuple) and x[0] == "field" and x[-1] == "0" and isinstance(x[1], tuple) and x[1][0] == "as" and x[1][2] == "Some" and "::next" in expr_str(x[1][1]):
+                    key = expr_str(x)
+        if key is not None:
+            skipped = set()
+            for sq in range(64):
+                for c in extra:
+                    try:
+                        v = fold_tree(ix, c[3], {key: sq})
+                    except Undef:
+                        skipped = None
+                        break
+                    if not isinstance(v, int) or (bool(v) not in c[1] and v not in c[1]):
+                        skipped.add(sq)
+                if skipped is None:
+                    break
+    if skipped is not None:
+        harmful = sorted(G.square_name(sq) for sq in skipped if G.leaper(sq, deltas) != 0)
+        ctx.check(not harmful, "%s:entry-for-every-square" % name, "%s: the entries the in-loop condition skips (%d squares) are squares without attacks" % (name, len(skipped)),
+                  b.where(blocks[0]), bad_what="%s: the attack entry is not written for %s, which keep the empty entry although the piece attacks from there" % (name, harmful[:8]))
+        return
+    ctx.check(ok and not extra, "%s:entry-for-every-square" % name, "%s: the table entry of every square is written (the store is unconditional in the loop over the squares)" % name,
+              b.where(blocks[0] if blocks else 0),
+              bad_what="%s: the attack entry is written %s: squares for which the condition fails keep the empty entry" % (name, ("only when %s" % [(c[0][:60], sorted(map(str, c[1]))) for c in extra]) if extra else "at %d places / outside the loop" % len(blocks)))
+
+
 def rule_leapers(ctx):
     ix = ctx.ix
 
@@ -524,9 +568,12 @@ def rule_leapers(ctx):
         b = ctx.body(key)
         sym = ctx.sym(b)
         init = None
+        init_blocks = []
         for bi, i, s in b.stmts():
             if s["lhs"]["p"] == ["*"]:
                 init = sym.rvalue(s["rv"])
+                init_blocks.append(bi)
+        _every_square_written(ctx, ix, b, sym, name, init_blocks, deltas)
         terms = shift_terms(init, origin_test_for(b, sym)) if init else None
         check_leaper(ctx, name, terms, deltas, b.where(0), fold_leaper(ix, init) if init else None)
         rd = ctx.body("<board::piece::%s::%s as board::piece::Precomputed>::get_attacks" % (name, name.capitalize()))
@@ -537,11 +584,15 @@ def rule_leapers(ctx):
     pb = ctx.body("<board::piece::pawn::Pawn as board::piece::PrecomputedColor>::init_attacks")
     psym = ctx.sym(pb)
     rows = {}
+    row_blocks = {}
     for bi, i, s in pb.stmts():
         p = s["lhs"]["p"]
         if len(p) == 2 and all(isinstance(x, dict) and "i" in x for x in p):
             colour_idx = ceval(psym.local(p[0]["i"]))
             rows[colour_idx] = psym.rvalue(s["rv"])
+            row_blocks.setdefault(colour_idx, []).append(bi)
+    for ci_, blocks_ in sorted(row_blocks.items(), key=str):
+        _every_square_written(ctx, ix, pb, psym, "pawn-%s" % {0: "White", 1: "Black"}.get(ci_, ci_), blocks_, G.PAWN_DELTAS.get({0: "White", 1: "Black"}.get(ci_)))
     col = {0: "White", 1: "Black"}
     cadt = ix.adt("board::piece::Color")
     disc = {v["name"]: int(v["discr"]) for v in cadt["variants"]}
@@ -778,6 +829,8 @@ def fold_tree(ix, e, env, depth=0):
             r = a | b
         elif op == "BitXor":
             r = a ^ b
+        elif op in ("Eq", "Ne", "Lt", "Le", "Gt", "Ge"):
+            return int({"Eq": a == b, "Ne": a != b, "Lt": a < b, "Le": a <= b, "Gt": a > b, "Ge": a >= b}[op])
         else:
             raise Undef("operator %s" % op)
         if env.get("__signed__"):
@@ -986,7 +1039,8 @@ def run(tier):
                      "constants to the code: reader and writer compute the same index expression over the same tables; rook/bishop masks drop exactly the far edge of each ray; the slow ray walk blocks each "
                      "direction with the right scan and clears the same direction; leaper initialisers normalise to exactly the 8/8/2+2 steps with exactly the wrapping files masked; queen = rook | bishop; "
                      "Kind::get_attacks dispatches correctly with all_pieces as blockers. get_blockers_from_index pairs bit i of the index with the i-th lowest mask bit over 0..popcount (so the fill loop enumerates every subset). "
-                     "Not decided: the shift arithmetic of init_rays (value-level), so the claim is 'tables are exact provided rays[sq][d] is the geometric ray'."),
-        assumptions=["rays[sq][d] equals the geometric ray (init_rays not decided)",
-                     "square index = rank*8+file (checked by C04.same-words)"],
+                     "The eight ray expressions of init_rays, the leaper initialisers and the Bitboard operator impls are folded for all 64 squares (through the n-fold shift loops, in loop or fold form) "
+                     "and compared with the oracle; each leaper store runs for every square that has attacks (an in-loop condition is folded for the 64 squares). "
+                     "Not decided: the bit iteration `Vec<Square>::from(Bitboard)`."),
+        assumptions=["square index = rank*8+file (checked by C04.same-words)"],
         extra={"exhaustive": True}, tier=tier)
